@@ -166,7 +166,7 @@ RULES = {
         what="every Gindex64 / bit-length method on generated 64-bit values; ToGindex64 on an (index, depth) grid",
         nontrivial=lambda inp, obs: True,
         assumptions=["uint64 inputs; gindex 0 is included for the arithmetic helpers (documented as invalid)"]),
-    "C17": dict(what="ReadonlyIter / Iter (3 extra Next calls each) / Get(i) on every kind of series view"),
+    "C17": dict(race_extra="TestC17Race", what="ReadonlyIter / Iter (3 extra Next calls each) / Get(i) on every kind of series view; the same reads of ONE view object from six goroutines under the race detector"),
     "C18": dict(
         what="bitlist/bitvector checks and helpers on byte strings x limits",
         nontrivial=lambda inp, obs: True,
